@@ -1317,6 +1317,10 @@ impl DhtNetworkManager {
             hex::encode(key)
         );
 
+        if count == 0 {
+            return Ok(Vec::new());
+        }
+
         let mut queried_nodes: HashSet<String> = HashSet::new();
         let mut best_nodes: Vec<DHTNode> = Vec::new();
         let mut queued_peer_ids: HashSet<String> = HashSet::new();
@@ -1335,35 +1339,43 @@ impl DhtNetworkManager {
             queued_peer_ids.insert(node.peer_id.clone());
             candidates.push_back(node);
         }
-        let mut previous_candidate_snapshot: Option<BTreeSet<String>> = None;
 
         for iteration in 0..MAX_ITERATIONS {
-            if candidates.is_empty() {
+            // The lookup may only stop once every known peer that could still enter
+            // the result - i.e. that is closer than the farthest of the K answered
+            // nodes - has been queried (or has failed). Candidates are therefore
+            // taken closest first, and the ones that can no longer matter are
+            // dropped; "nobody returned a new closer node this round" is not a
+            // reason to stop while such candidates remain.
+            let mut pending: Vec<DHTNode> = candidates
+                .drain(..)
+                .filter(|n| !queried_nodes.contains(&n.peer_id))
+                .collect();
+            pending.sort_by(|a, b| Self::compare_node_distance(a, b, key));
+            if best_nodes.len() >= count
+                && let Some(worst) = best_nodes.last()
+            {
+                pending.retain(|n| {
+                    Self::compare_node_distance(n, worst, key) == std::cmp::Ordering::Less
+                });
+            }
+            queued_peer_ids = pending.iter().map(|n| n.peer_id.clone()).collect();
+
+            if pending.is_empty() {
                 debug!(
-                    "[NETWORK] No more candidates after {} iterations",
+                    "[NETWORK] All relevant candidates queried after {} iterations",
                     iteration
                 );
                 break;
             }
 
-            // Select up to ALPHA unqueried nodes to query
-            let mut batch: Vec<DHTNode> = Vec::new();
-            while batch.len() < ALPHA && !candidates.is_empty() {
-                if let Some(node) = candidates.pop_front() {
-                    queued_peer_ids.remove(&node.peer_id);
-                    if !queried_nodes.contains(&node.peer_id) {
-                        batch.push(node);
-                    }
-                }
+            // Select the ALPHA closest unqueried nodes
+            let rest = pending.split_off(ALPHA.min(pending.len()));
+            let batch = pending;
+            for node in &batch {
+                queued_peer_ids.remove(&node.peer_id);
             }
-
-            if batch.is_empty() {
-                debug!(
-                    "[NETWORK] All candidates queried after {} iterations",
-                    iteration
-                );
-                break;
-            }
+            candidates = rest.into();
 
             info!(
                 "[NETWORK] Iteration {}: querying {} nodes",
@@ -1389,7 +1401,6 @@ impl DhtNetworkManager {
 
             let results = futures::future::join_all(query_futures).await;
 
-            let mut found_new_closer = false;
             for (peer_id, result) in results {
                 queried_nodes.insert(peer_id.clone());
 
@@ -1408,31 +1419,16 @@ impl DhtNetworkManager {
                             {
                                 continue;
                             }
-                            // A candidate is "dominated" only if we already have K
-                            // best_nodes AND the candidate is no closer than the
-                            // farthest node in our best set. best_nodes is sorted
-                            // by distance at the end of each iteration, so .last()
-                            // is the farthest.
-                            let dominated = best_nodes.len() >= count
-                                && best_nodes.last().is_some_and(|worst| {
-                                    matches!(
-                                        Self::compare_node_distance(&node, worst, key),
-                                        std::cmp::Ordering::Equal | std::cmp::Ordering::Greater
-                                    )
-                                });
-                            if !dominated {
-                                if candidates.len() >= MAX_CANDIDATE_NODES {
-                                    trace!(
-                                        "[NETWORK] Candidate queue at capacity ({}), dropping {}",
-                                        MAX_CANDIDATE_NODES,
-                                        &node.peer_id[..8.min(node.peer_id.len())]
-                                    );
-                                    continue;
-                                }
-                                queued_peer_ids.insert(node.peer_id.clone());
-                                candidates.push_back(node);
-                                found_new_closer = true;
+                            if candidates.len() >= MAX_CANDIDATE_NODES {
+                                trace!(
+                                    "[NETWORK] Candidate queue at capacity ({}), dropping {}",
+                                    MAX_CANDIDATE_NODES,
+                                    &node.peer_id[..8.min(node.peer_id.len())]
+                                );
+                                continue;
                             }
+                            queued_peer_ids.insert(node.peer_id.clone());
+                            candidates.push_back(node);
                         }
                     }
                     Ok(_) => {
@@ -1453,25 +1449,6 @@ impl DhtNetworkManager {
             // Sort and truncate once per iteration instead of per result
             best_nodes.sort_by(|a, b| Self::compare_node_distance(a, b, key));
             best_nodes.truncate(count);
-
-            if !found_new_closer {
-                info!("[NETWORK] Converged after {} iterations", iteration + 1);
-                break;
-            }
-
-            let snapshot: BTreeSet<String> = queued_peer_ids.iter().cloned().collect();
-            if let Some(previous) = &previous_candidate_snapshot
-                && !snapshot.is_empty()
-                && *previous == snapshot
-            {
-                info!(
-                    "[NETWORK] {}: Candidate set stagnated after {} iterations, stopping",
-                    self.config.local_peer_id,
-                    iteration + 1
-                );
-                break;
-            }
-            previous_candidate_snapshot = Some(snapshot);
         }
 
         best_nodes.sort_by(|a, b| Self::compare_node_distance(a, b, key));
